@@ -30,6 +30,15 @@ def main(argv=None):
         jobs += [(c, 2, 60000, "c11") for c in c2]
         cfgs = cfgs + c2
     cfgs = extra + cfgs
+    # large-population leg (see _stochfam.big_configs): hundreds of individuals, answers relative to the requested mean
+    # (a +3 sigma or 10^7 count drives a state below its lower limit or beyond a large declared upper limit)
+    big_seeds = ["BD", "SIR", "ONE", "CAPPEDBIG", "RANGE"]
+    bseed_defs, _ = fam.gather_defs(big_seeds, 0)
+    bdefs = bseed_defs if quick else fam.gather_defs(big_seeds, 1)[0]
+    big, big_skipped = fam.big_configs(bdefs, pool.pmap)
+    seed_keys = {fam.gen.canon(d) for _s, d in bseed_defs}
+    jobs += [(c, 2 if fam.gen.canon(c.d) in seed_keys else 1, 100000, "c11") for c in big]
+    cfgs = cfgs + big
     res = pool.pmap(stoch.explore_config, jobs, chunksize=1)
     ex, steps, capped, nout = fam.summarize_l2(run, res, cfgs)
     l1j = fam.l1_jobs(defs, run.tier)
@@ -56,6 +65,7 @@ def main(argv=None):
                     len(defs), dbound, seeds, refused),
         "states": l1s, "transitions": l1t, "traces_validated_against_impl": ex,
         "illegal_proposals_checked": refused,
+        "large_population_configurations": len(big), "large_population_skipped": big_skipped,
         "configurations": len(cfgs), "definitions": len(defs), "deviation_bound_completed": bound,
         "capped_configurations": capped[:20],
     })
